@@ -359,6 +359,10 @@ func (r *Run) Finish(rule string, floor int) {
 	if viol > 0 {
 		os.Exit(1)
 	}
+	if r.inconclusive > 20 && r.inconclusive > evals {
+		fmt.Printf("ERROR: property=%s most cases were inconclusive (%d inconclusive vs %d judged): no verdict\n", r.Prop, r.inconclusive, evals)
+		os.Exit(3)
+	}
 	if nd < floor || evals == 0 {
 		fmt.Printf("ERROR: property=%s observed too little (distinct=%d < floor=%d): no verdict\n", r.Prop, nd, floor)
 		os.Exit(3)
